@@ -756,113 +756,137 @@ func (c *Check) computeBaseRange() {
 		c.undecided("C13-R4", "range", p.relFile(f.Pos()), "computeBase has no uint64 address parameter")
 		return
 	}
-	// the ELF part (range test and segment search) moved into a helper that is handed the
-	// address: decide the rule there
-	for depth := 0; depth < 2; depth++ {
-		h := fph.Call.StaticCallee()
-		if h == nil || h.Name() == "findProgramHeader" || !fnInModule(h) || len(h.Blocks) == 0 {
-			break
-		}
-		idx := -1
-		for i, a := range fph.Call.Args {
-			if a == ssa.Value(addrPar) {
-				idx = i
-			}
-		}
-		if idx < 0 || idx >= len(h.Params) {
-			break
-		}
-		var inner *ssa.Call
-		for _, es := range effectiveSites(h, func(ins ssa.Instruction) bool {
-			call, ok := ins.(*ssa.Call)
-			return ok && call.Call.StaticCallee() != nil && call.Call.StaticCallee().Name() == "findProgramHeader"
-		}, 2) {
-			if call, ok := es.at.(*ssa.Call); ok {
-				inner = call
-			}
-		}
-		if inner == nil {
-			break
-		}
-		f, addrPar, fph = h, h.Params[idx], inner
+	// the ELF part (range test and segment search) may have moved into a helper that is handed
+	// the address: if the rule fails on computeBase itself it is decided there instead
+	type anchor struct {
+		f    *ssa.Function
+		addr *ssa.Parameter
+		fph  *ssa.Call
 	}
-	for _, side := range []struct {
-		field string
-		below bool
-		what  string
-	}{{"start", true, "below the mapping start"}, {"limit", false, "at or above the mapping limit"}} {
-		// assume addr < start (resp. addr >= limit); comparisons of the address with that bound,
-		// in either orientation and in boolean helpers of the package, are decided by it
-		mentioned := false
-		var assumeFor func(addr ssa.Value, depth int) func(cond ssa.Value) int
-		assumeFor = func(addr ssa.Value, depth int) func(cond ssa.Value) int {
-			return func(cond ssa.Value) int {
-				switch x := cond.(type) {
-				case *ssa.BinOp:
-					op := x.Op
-					var other ssa.Value
-					switch {
-					case x.X == addr:
-						other = x.Y
-					case x.Y == addr:
-						other = x.X
-						switch op { // mirror so that the address is on the left
-						case token.LSS:
-							op = token.GTR
-						case token.LEQ:
-							op = token.GEQ
-						case token.GTR:
-							op = token.LSS
-						case token.GEQ:
-							op = token.LEQ
-						}
-					default:
-						return 0
-					}
-					if !isFieldLoad(other, "binutils.elfMapping", side.field) {
-						return 0
-					}
-					mentioned = true
-					if side.below { // addr < start
-						switch op {
-						case token.LSS, token.LEQ, token.NEQ:
-							return 1
-						case token.GEQ, token.GTR, token.EQL:
-							return -1
-						}
-					} else { // addr >= limit
-						switch op {
-						case token.GEQ:
-							return 1
-						case token.LSS:
-							return -1
-						}
-					}
-				case *ssa.Call:
-					callee := x.Call.StaticCallee()
-					if callee == nil || !fnInModule(callee) || len(callee.Blocks) == 0 || depth > 1 {
-						return 0
-					}
-					if bt, ok := x.Type().Underlying().(*types.Basic); !ok || bt.Kind() != types.Bool {
-						return 0
-					}
-					for i, a := range x.Call.Args {
-						if a == addr && i < len(callee.Params) {
-							return boolResultUnder(callee, assumeFor(callee.Params[i], depth+1))
-						}
-					}
+	anchors := []anchor{{f, addrPar, fph}}
+	{
+		f2, addr2, fph2 := f, addrPar, fph
+		for depth := 0; depth < 2; depth++ {
+			h := fph2.Call.StaticCallee()
+			if h == nil || h.Name() == "findProgramHeader" || !fnInModule(h) || len(h.Blocks) == 0 {
+				break
+			}
+			idx := -1
+			for i, a := range fph2.Call.Args {
+				if a == ssa.Value(addr2) {
+					idx = i
 				}
-				return 0
+			}
+			if idx < 0 || idx >= len(h.Params) {
+				break
+			}
+			var inner *ssa.Call
+			for _, es := range effectiveSites(h, func(ins ssa.Instruction) bool {
+				call, ok := ins.(*ssa.Call)
+				return ok && call.Call.StaticCallee() != nil && call.Call.StaticCallee().Name() == "findProgramHeader"
+			}, 2) {
+				if call, ok := es.at.(*ssa.Call); ok {
+					inner = call
+				}
+			}
+			if inner == nil {
+				break
+			}
+			f2, addr2, fph2 = h, h.Params[idx], inner
+			anchors = append(anchors, anchor{f2, addr2, fph2})
+		}
+	}
+	for ai, an := range anchors {
+		f, addrPar, fph = an.f, an.addr, an.fph
+		mark := len(c.Obls)
+		for _, side := range []struct {
+			field string
+			below bool
+			what  string
+		}{{"start", true, "below the mapping start"}, {"limit", false, "at or above the mapping limit"}} {
+			// assume addr < start (resp. addr >= limit); comparisons of the address with that bound,
+			// in either orientation and in boolean helpers of the package, are decided by it
+			mentioned := false
+			var assumeFor func(addr ssa.Value, depth int) func(cond ssa.Value) int
+			assumeFor = func(addr ssa.Value, depth int) func(cond ssa.Value) int {
+				return func(cond ssa.Value) int {
+					switch x := cond.(type) {
+					case *ssa.BinOp:
+						op := x.Op
+						var other ssa.Value
+						switch {
+						case x.X == addr:
+							other = x.Y
+						case x.Y == addr:
+							other = x.X
+							switch op { // mirror so that the address is on the left
+							case token.LSS:
+								op = token.GTR
+							case token.LEQ:
+								op = token.GEQ
+							case token.GTR:
+								op = token.LSS
+							case token.GEQ:
+								op = token.LEQ
+							}
+						default:
+							return 0
+						}
+						if !isFieldLoad(other, "binutils.elfMapping", side.field) {
+							return 0
+						}
+						mentioned = true
+						if side.below { // addr < start
+							switch op {
+							case token.LSS, token.LEQ, token.NEQ:
+								return 1
+							case token.GEQ, token.GTR, token.EQL:
+								return -1
+							}
+						} else { // addr >= limit
+							switch op {
+							case token.GEQ:
+								return 1
+							case token.LSS:
+								return -1
+							}
+						}
+					case *ssa.Call:
+						callee := x.Call.StaticCallee()
+						if callee == nil || !fnInModule(callee) || len(callee.Blocks) == 0 || depth > 1 {
+							return 0
+						}
+						if bt, ok := x.Type().Underlying().(*types.Basic); !ok || bt.Kind() != types.Bool {
+							return 0
+						}
+						for i, a := range x.Call.Args {
+							if a == addr && i < len(callee.Params) {
+								return boolResultUnder(callee, assumeFor(callee.Params[i], depth+1))
+							}
+						}
+					}
+					return 0
+				}
+			}
+			reach := reachUnder(f, assumeFor(addrPar, 0))
+			key := "range:" + side.field
+			// the rule only applies when the address is compared with that bound at all
+			if mentioned && !reach[fph.Block()] {
+				c.ok("C13-R4", key, p.relFile(fph.Pos()), "computeBase rejects an address "+side.what, "findProgramHeader is unreachable when addr is "+side.what)
+			} else {
+				c.bad("C13-R4", key, p.relFile(fph.Pos()), "computeBase looks for a segment with an address "+side.what+": the file offset addr-start+offset wraps around and a wrong segment may be selected")
 			}
 		}
-		reach := reachUnder(f, assumeFor(addrPar, 0))
-		key := "range:" + side.field
-		// the rule only applies when the address is compared with that bound at all
-		if mentioned && !reach[fph.Block()] {
-			c.ok("C13-R4", key, p.relFile(fph.Pos()), "computeBase rejects an address "+side.what, "findProgramHeader is unreachable when addr is "+side.what)
-		} else {
-			c.bad("C13-R4", key, p.relFile(fph.Pos()), "computeBase looks for a segment with an address "+side.what+": the file offset addr-start+offset wraps around and a wrong segment may be selected")
+		failed := false
+		for _, o := range c.Obls[mark:] {
+			if o.Status != "discharged" {
+				failed = true
+			}
 		}
+		if !failed || ai == len(anchors)-1 {
+			break
+		}
+		c.rollback(mark)
 	}
 }
 
